@@ -92,6 +92,8 @@ def special_inputs(rng):
     for rows in (4096, 4097, 8192, 8193, 8200, 16385):
         out.append((f"size-rows-{rows}", b"struct Row { uint64[65535] px; };\nstruct Frame { Row[%d] rows; uint64 stamp; };\n"
                                           b"interface I { method m(in Frame f, out Frame g); };\n" % rows))
+    out.append(("case-fold-ifaces", b"interface Logger { method log(in uint32 level, in buffer msg); };\ninterface LOGGER { method flush(); };\n"))
+    out.append(("case-fold-struct-iface", b"struct Foo { uint32 a; };\ninterface FOO { method m(in Foo f); };\ninterface foo { method n(); };\n"))
     out.append(("self-cycle", b"struct S { S a; };\n"))
     out.append(("rho-cycle-1", b"struct Outer { Inner i; };\nstruct Inner { Inner again; };\n"))
     out.append(("rho-cycle-2", b"struct Header { uint64 a; Node n; };\nstruct Node { Link l; };\nstruct Link { Node back; };\n"))
